@@ -363,9 +363,15 @@ def real_session_import_case(rng, out, C, idx=None):
     if "plain" in kinds:
         tests += "def test_p():\n    assert [1, 2] == snapshot([1])\n\n\n"
     src = head + WEIRD + "\n" + tests
+    # other files rewritten in the same session that need no new name (sorted after and before test_a.py)
+    others = {}
+    if rng.random() < 0.7:
+        others["test_b_plain.py"] = "from inline_snapshot import snapshot\n\n\ndef test_b():\n    assert [3, 4] == snapshot([3])\n    assert 'x' == snapshot()\n"
+    if rng.random() < 0.4:
+        others["test_0_plain.py"] = "from inline_snapshot import snapshot\n\n# first file of the session\ndef test_first():\n    assert {'k': 1} == snapshot({})\n"
     # process environment: the file is UTF-8 whatever the locale of the process that rewrites it
     lname, lenv = rng.choice(LOCALES) if idx is None else LOCALES[idx % len(LOCALES)]
-    proj = session.Project({"test_a.py": src}, with_vp=False)
+    proj = session.Project({"test_a.py": src, **others}, with_vp=False)
     try:
         r = session.run_session(proj, ["--inline-snapshot=create,fix"], env=lenv)
         r2 = session.run_session(proj, ["--inline-snapshot=disable"], env=lenv)
@@ -375,7 +381,20 @@ def real_session_import_case(rng, out, C, idx=None):
     C["real_sessions_locale_" + lname] = C.get("real_sessions_locale_" + lname, 0) + 1
     out["evaluations"] += 1
     out["signatures"].add(f"real-session-import/{hname}/{'+'.join(sorted(kinds))}/{lname}")
-    wit = {"files": {"test_a.py": src}, "args": ["--inline-snapshot=create,fix"], "env": lenv}
+    wit = {"files": {"test_a.py": src, **others}, "args": ["--inline-snapshot=create,fix"], "env": lenv}
+    C["real_session_files"] = C.get("real_session_files", 0) + 1 + len(others)
+    # files whose generated code needs no new name must not get an import line (nor any other line)
+    for oname, osrc in others.items():
+        onew = r.after.get(oname, b"").decode("utf-8", "replace")
+        C["plain_sibling_files_checked"] = C.get("plain_sibling_files_checked", 0) + 1
+        try:
+            if mask(osrc, call_spans(osrc)[0]) != mask(onew, call_spans(onew)[0]):
+                import difflib
+
+                d = "\n".join(difflib.unified_diff(osrc.splitlines(), onew.splitlines(), "before", "after", lineterm="", n=0))
+                out["violations"].append({"kind": "bytes-outside-snapshot-arguments-changed(sibling file, real session)", "detail": {"head": hname, "kinds": sorted(kinds), "file": oname, "diff": d[:800]}, "witness": wit, "finding": None})
+        except SyntaxError as e:
+            out["violations"].append({"kind": "unparsable", "detail": {"file": oname, "error": str(e), "new": onew[:800]}, "witness": wit, "finding": None})
     base = {"head": hname, "kinds": sorted(kinds), "locale": lname}
     try:
         new = r.after.get("test_a.py", b"").decode()
@@ -419,8 +438,13 @@ def real_session_import_case(rng, out, C, idx=None):
                 if tag == "equal":
                     continue
                 removed, added = mo[i1:i2], mn[j1:j2]
-                if removed or any(ln.strip() not in ("", "from inline_snapshot import external", "from inline_snapshot import HasRepr") for ln in added):
-                    bad.append({"removed": removed[:3], "added": added[:3]})
+                allowed = {""}
+                new_args_text = " ".join(new[a:b] for a, b in call_spans(new)[0])
+                for nm in ("external", "HasRepr"):
+                    if nm + "(" in new_args_text:
+                        allowed.add("from inline_snapshot import " + nm)
+                if removed or any(ln.strip() not in allowed for ln in added):
+                    bad.append({"removed": removed[:3], "added": added[:3], "allowed_additions": sorted(allowed)})
             C["import_byte_checks"] = C.get("import_byte_checks", 0) + 1
             if bad:
                 out["violations"].append({"kind": "bytes-outside-snapshot-arguments-changed(real session)", "detail": {**base, "changes": bad[:3]}, "witness": wit, "finding": None})
